@@ -311,6 +311,14 @@ def _simplify_doc3():
 
 
 def run_simplify(repo: Repo, doc=None):
+    key = ("simplify", repo.digest(), getattr(doc, "__qualname__", None))
+    if key in _MEMO:
+        return _MEMO[key]
+    _MEMO[key] = res = _run_simplify(repo, doc)
+    return res
+
+
+def _run_simplify(repo: Repo, doc=None):
     def build():
         root = (doc or _simplify_doc)()
         return ([make_svg(root)], {})
@@ -1320,7 +1328,21 @@ def _struct(n):
 _PIPE_CATS = ("grammar", "path-data", "rounding", "paint", "junk", "kept-group", "orphans", "fixpoint", "completes")
 
 
+_MEMO: Dict[tuple, tuple] = {}
+
+
 def run_pipeline(repo: Repo, ndigits=3, passes=1, doc=None, **kw):
+    key = ("pipeline", repo.digest(), ndigits, passes, getattr(doc, "__qualname__", None) if doc is not None else None, tuple(sorted(kw.items())))
+    memo_ok = doc is None or "<locals>" not in getattr(doc, "__qualname__", "<locals>")
+    if memo_ok and key in _MEMO:
+        return _MEMO[key]
+    res = _run_pipeline(repo, ndigits, passes, doc, **kw)
+    if memo_ok:
+        _MEMO[key] = res
+    return res
+
+
+def _run_pipeline(repo: Repo, ndigits=3, passes=1, doc=None, **kw):
     snaps = []
 
     def body(it, a, k):
@@ -1726,3 +1748,137 @@ def _same_number(a, b):
         return Fraction(str(a)) == Fraction(str(b))
     except (ValueError, ZeroDivisionError):
         return False
+
+
+# =========================================================================================== XML entry point
+def observe_xml_entry(repo: Repo):
+    """Interpret SVG.fromstring / SVG.parse on a literal document and report how lxml is asked to parse it:
+    list of (api, parser options or None)."""
+    from sa.dom import ParserTok
+    from sa.sym import ClassRef, explore
+    seen = []
+    src = '<?xml version="1.0"?><svg xmlns="http://www.w3.org/2000/svg" viewBox="0 0 1 1"><!-- c --><path xlink:href="#a" d="M0,0"/></svg>'
+
+    class _File(Ext):
+        def sym_getattr(self, it, attr):
+            if attr == "read":
+                return PyCallable(lambda i, a, k: src)
+            raise Undecided(f"file.{attr}")
+
+        def sym_hasattr(self, it, attr):
+            return attr == "read"
+
+    for entry, arg in (("fromstring", src), ("fromstring", src.encode("utf-8")), ("parse", _File())):
+        def setup(it):
+            from sa.dom import install_dom
+            install_dom(it)
+            it.hooks[("svg", "_fix_xlink_ns")] = lambda i, a, k: a[0]
+            it._seen_ref = seen
+
+        from sa.sym import method_of
+        fn = method_of(repo, "svg", "SVG", entry)
+        box = {}
+
+        def setup2(it, setup=setup):
+            setup(it)
+            box["it"] = it
+
+        outs = explore(repo, fn, [], fresh_args=lambda: ([ClassRef("svg", "SVG"), arg], {}), setup=setup2)
+        for o in outs:
+            if o.undecided:
+                raise AnalysisError(f"svg.SVG.{entry}: abstract machine cannot interpret this code: {o.undecided}")
+            seen.append((entry, o.raised, list(getattr(box["it"], "xml_parses", []))))
+    return seen
+
+
+def check_xml_entry(repo: Repo, rep: Report, rule: str, need: Dict[str, object], forbid=()):
+    """Every way into the library parses through an XMLParser constructed with the options in `need`."""
+    svg = repo["svg"]
+    F = "svg.SVG.fromstring"
+    rep.saw(F, "svg.SVG.parse")
+    probs = []
+    for entry, raised, parses in observe_xml_entry(repo):
+        if raised:
+            probs.append(f"SVG.{entry} raises {raised} on a well-formed document")
+            continue
+        if len(parses) != 1:
+            probs.append(f"SVG.{entry} hands the document to lxml {len(parses)} times")
+            continue
+        api, parser = parses[0]
+        if parser is None:
+            probs.append(f"SVG.{entry} parses with etree.{api} without an explicit parser (lxml defaults: comments kept, entities resolved)")
+            continue
+        for k, v in need.items():
+            if parser.options.get(k, "<default>") != v:
+                probs.append(f"SVG.{entry}: XMLParser option {k} is {parser.options.get(k, '<lxml default>')!r}; {v!r} is required")
+        for k in forbid:
+            if parser.options.get(k) not in (None, False) and not (k == "no_network" and parser.options.get(k) is True):
+                probs.append(f"SVG.{entry}: XMLParser option {k}={parser.options[k]!r} enables DTD / network / huge-input handling")
+    if probs:
+        u = list(dict.fromkeys(probs))
+        rep.fail(rule, F, "XMLParser options at the XML entry points", f"{len(u)} deviations; first: {u[0]}", svg, svg.func("SVG.fromstring"))
+    else:
+        rep.ok(rule, F, f"fromstring (str and bytes) and parse, interpreted: one lxml parse each, through XMLParser with {need}", True)
+
+
+# =========================================================================================== reference cycles / missing targets
+def _ref_docs():
+    H = XLINK_HREF
+
+    def tri(i=0):
+        return pd(("M", (i, i)), ("L", (i + 2, i)), ("L", (i + 2, i + 2)), ("Z", ()))
+
+    def svg(*kids, defs=()):
+        return El("svg", {"viewBox": "0 0 10 10"}, [El("defs", {}, list(defs))] + list(kids), name="root")
+
+    docs = {}
+    docs["a <use> of a group that contains the same <use>"] = lambda: svg(El("g", {"id": "a"}, [El("path", {"d": tri()}), El("use", {H: "#a"})]), El("use", {H: "#a"}))
+    docs["two groups whose <use> elements reference each other"] = lambda: svg(El("g", {"id": "a"}, [El("use", {H: "#b"})]), El("g", {"id": "b"}, [El("use", {H: "#a"}), El("path", {"d": tri()})]))
+    docs["a <use> that references itself"] = lambda: svg(El("use", {"id": "u", H: "#u"}))
+    docs["a <use> cycle through an ancestor"] = lambda: svg(El("g", {"id": "a"}, [El("g", {}, [El("use", {H: "#a"})])]))
+    docs["a clipPath clipped by itself"] = lambda: svg(El("path", {"d": tri(), "clip-path": "url(#c)"}), defs=[El("clipPath", {"id": "c", "clip-path": "url(#c)"}, [El("rect", {"width": "3", "height": "3"})])])
+    docs["two clipPaths clipping each other"] = lambda: svg(El("path", {"d": tri(), "clip-path": "url(#c)"}),
+                                                            defs=[El("clipPath", {"id": "c", "clip-path": "url(#d)"}, [El("rect", {"width": "3", "height": "3"})]),
+                                                                  El("clipPath", {"id": "d", "clip-path": "url(#c)"}, [El("rect", {"width": "2", "height": "2"})])])
+    docs["a clipPath whose child is clipped by that clipPath"] = lambda: svg(El("path", {"d": tri(), "clip-path": "url(#c)"}),
+                                                                            defs=[El("clipPath", {"id": "c"}, [El("rect", {"width": "3", "height": "3", "clip-path": "url(#c)"})])])
+    docs["a clipPath that contains a <use> of an element clipped by it"] = lambda: svg(El("path", {"id": "p", "d": tri(), "clip-path": "url(#c)"}),
+                                                                                      defs=[El("clipPath", {"id": "c"}, [El("use", {H: "#p"})])])
+    docs["two gradients that are each other's template"] = lambda: svg(El("path", {"d": tri(), "fill": "url(#g1)"}),
+                                                                       defs=[El("linearGradient", {"id": "g1", H: "#g2"}), El("linearGradient", {"id": "g2", H: "#g1"}, [El("stop", {"offset": "0"})])])
+    docs["a gradient that is its own template"] = lambda: svg(El("path", {"d": tri(), "fill": "url(#g1)", "transform": "tR"}), defs=[El("linearGradient", {"id": "g1", H: "#g1"})])
+    docs["a <use> without target"] = lambda: svg(El("use", {H: "#nope"}))
+    docs["a clip-path without target"] = lambda: svg(El("path", {"d": tri(), "clip-path": "url(#nope)"}))
+    docs["a fill without target"] = lambda: svg(El("path", {"d": tri(), "fill": "url(#nope)", "transform": "tR"}))
+    docs["a gradient template without target"] = lambda: svg(El("path", {"d": tri(), "fill": "url(#g1)"}), defs=[El("linearGradient", {"id": "g1", H: "#nope"})])
+    docs["a <use> with the SVG 2 href attribute in a cycle"] = lambda: svg(El("g", {"id": "a"}, [El("path", {"d": tri()}), El("use", {"href": "#a"})]), El("use", {"href": "#a"}))
+    return docs
+
+
+def check_reference_cycles(repo: Repo, rep: Report, rule: str):
+    """topicosvg interpreted on documents with cyclic and dangling references: every run ends (normally or with an
+    exception, deep recursion counts as Python's RecursionError) within the step budget of the abstract machine."""
+    svg = repo["svg"]
+    F = "svg.SVG.topicosvg"
+    rep.saw(F, "svg.SVG._resolve_use", "svg.SVG._check_use_acyclic", "svg.SVG._resolve_clip_path", "svg.SVG._apply_gradient_template")
+    from sa.sym import method_of
+    probs, n = [], 0
+    for title, doc in _ref_docs().items():
+        def body(it, a, k):
+            it.call(method_of(repo, "svg", "SVG", "topicosvg"), [a[0]], {"inplace": True})
+            return a[0]
+        outs = run(repo, body, lambda doc=doc: ([make_svg(doc())], {}), max_paths=64, area=lambda g: 7)
+        for o in outs:
+            n += 1
+            if o.undecided and ("step budget exceeded" in o.undecided or "while loop bound exceeded" in o.undecided or "exceeded" in o.undecided and "paths" in o.undecided
+                                or "python recursion limit in the evaluator" in o.undecided):
+                probs.append(f"{title}: the conversion does not end (the abstract machine ran out of steps: {o.undecided})")
+            elif o.undecided and "recursion too deep" in o.undecided:
+                continue  # unbounded recursion ends in Python's RecursionError: an exception, as the property allows
+            elif o.undecided:
+                raise AnalysisError(f"{F}: abstract machine cannot interpret this code on {title!r}: {o.undecided}")
+    if probs:
+        u = list(dict.fromkeys(probs))
+        rep.fail(rule, F, "documents with cyclic or dangling references", f"{len(u)} of {len(_ref_docs())} documents: {u[0]}", svg, svg.func("SVG.topicosvg"))
+    else:
+        rep.ok(rule, F + " [reference cycles]", f"{len(_ref_docs())} documents with use / clip-path / gradient-template cycles and missing targets, {n} runs: each ends (result or exception)", True)
